@@ -58,7 +58,48 @@ def _alias_corpus():
     return out
 
 
-CORPUS = _alias_corpus() + [  # hand-written trees for shapes the generator reaches rarely; each is one program
+def _numeq_corpus():
+    """== / != / ordering between floats and ints, in both operand orders, bare and inside containers: a fractional float is never equal
+    to an int, an integral one is equal to it (deterministic grid)"""
+    out = []
+    FL = [1.5, 2.5, -0.5, 3.9, 1.0, 2.0, -1.0, 0.0, 0.999]
+    IN = [1, 2, 3, 0, -1]
+    for a in FL:
+        for b in IN:
+            fa, ib = ("f", a), ("i", b)
+            rows = []
+            for op in ("comp.eq", "comp.ne", "comp.lt", "comp.ge"):
+                rows += [("bin", op, fa, ib), ("bin", op, ib, fa)]
+            rows += [("bin", "comp.eq", ("arr", [("i", 1), fa]), ("arr", [("i", 1), ib])), ("bin", "comp.eq", ("arr", [ib]), ("arr", [fa])),
+                     ("bin", "comp.eq", ("dict", [(("s", "k"), fa)]), ("dict", [(("s", "k"), ib)])),
+                     ("bin", "comp.ne", ("dict", [(("s", "k"), ib)]), ("dict", [(("s", "k"), fa)]))]
+            out.append(("seq", [("arr", rows)]))
+    return out
+
+
+def _setexpr_corpus():
+    """element / attribute / slice assignments in value positions: parenthesised operand, right side of another assignment, list element,
+    call argument, function result, condition"""
+    I = lambda k: ("i", k)
+    V = lambda n: ("var", n)
+    D0 = ("asg", "dc1", ("dict", []))
+    A0 = ("asg", "ar1", ("arr", [I(1), I(2), I(3)]))
+    sets = [("aset", "dc1", "b", I(7)), ("iset", V("dc1"), ("s", "k"), I(8)), ("iset", V("ar1"), I(0), I(9)), ("sset", V("ar1"), I(0), I(1), ("arr", [I(5), I(6)]))]
+    out = []
+    for st in sets:
+        pre = [D0, A0]
+        out.append(("seq", pre + [("asg", "x1", st), ("arr", [V("x1"), V("dc1"), V("ar1")])]))
+        out.append(("seq", pre + [("bin", "add", ("arr", [I(0)]) if st[0] == "sset" else I(1), st)]))
+        out.append(("seq", pre + [("arr", [st, I(4)]), ]))
+        out.append(("seq", pre + [("func", "fn1", ["pa1"], None, ("seq", [V("pa1")])), ("call", V("fn1"), [st])]))
+        out.append(("seq", [("func", "fn1", ["dc1", "ar1"], None, ("seq", [("asg", "x1", st)])), ("call", V("fn1"), [("dict", []), ("arr", [I(1), I(2), I(3)])])]))
+        out.append(("seq", [("func", "fn1", ["dc1", "ar1"], None, ("seq", [st])), ("call", V("fn1"), [("dict", []), ("arr", [I(1), I(2), I(3)])])]))
+        out.append(("seq", pre + [("tern", st, I(1), I(2))]))
+        out.append(("seq", pre + [st]))
+    return out
+
+
+CORPUS = _alias_corpus() + _numeq_corpus() + _setexpr_corpus() + [  # hand-written trees for shapes the generator reaches rarely; each is one program
     ("seq", [("asg", "x1", ("i", 5)), ("aset", "x1", "k", ("i", 1)), ]),
     ("seq", [("i", 7), ("asg", "dc1", ("dict", [])), ("aset", "dc1", "k", ("i", 3))]),
     ("seq", [("asg", "ar1", ("arr", [("i", 1), ("i", 2)])), ("asg", "ar2", ("var", "ar1")), ("iset", ("var", "ar1"), ("i", 0), ("i", 9)), ("var", "ar2")]),
